@@ -1715,6 +1715,70 @@ def _c10_node_pv(rng, line_safe: bool = False) -> str:
     return rng.choice(C10_NODE_PVS) if line_safe and (";" in s or "\n" in s or "\r" in s) else s
 
 
+def _c10_presentation_types(v: str) -> list:
+    """Every type a presentation line may carry under protocol `v`: the version's whole presentation table (sensor types,
+    17 = node, 18 = repeater node, the later S_ types) and types beyond it (decoding checks no table, the handler gets them)."""
+    table = sorted(int(k) for k in proto_tables(v)["presentation"])
+    return table + [table[-1] + 1, 99, 250, 255]
+
+
+def _c10_presents_node(f, after) -> bool:
+    """Has the sender of the decoded line `f` presented itself with this line?  What the unchanged library does with a
+    presentation on the system child, of any type: the registry holds a fresh entry for the node afterwards - the type of
+    the line, no children."""
+    if f is None or f[2] != 0 or f[1] != 255:
+        return False
+    entry = after.get(f[0])
+    return entry is not None and entry["type"] == f[4] and not entry["children"]
+
+
+def _c10_presentation_grid(ctx, rng) -> list:
+    """Presentations of EVERY type, systematically: gateway protocol x state of the sender (unknown; unknown with a request
+    outstanding; known; known with a missing child and a request outstanding) x presentation type (the whole table of the
+    version, and types beyond it).  Each history: the setup of the state (the request write ok / failing), the
+    presentation on the system child (= the node presents itself, whatever the type), another node's missing message, the
+    presentation again, a set for a child the node has not presented (one request) and again (silence), a presentation of
+    the same / a node type on ANOTHER child (a child presentation: the marker stays), the missing child again (silence),
+    the presentation on the system child (re-armed), a req for the missing child (one request)."""
+    out = []
+    states = ("unknown", "unknown, asked", "known", "known, asked")
+    k = 0
+    for v in lib.VERSIONS:
+        types = _c10_presentation_types(v)
+        table, beyond = types[:-4], types[-4:]
+        for state in states:
+            if ctx.tier == "thorough":
+                chosen = types
+            else:
+                # quick: a fifth of the table per (protocol, state) cell, rotating with the seed and the cell; always the two
+                # node types, a sensor type and one type beyond the table
+                start = (ctx.seed * 3 + k) % 5
+                chosen = sorted(set(table[start::5]) | {17, 18, rng.choice(table[:17])}) + [rng.choice(beyond)]
+            k += 1
+            for t in chosen:
+                h = Hist(v, True)
+                nid, other = rng.choice(((1, 2), (2, 1), (3, 9), (7, 5), (254, 1)))
+                pay = rng.choice(("2.0", v, "probe", "", "1.4", "Sk"))
+                if state.startswith("known"):
+                    h.preload.append(("node", nid, rng.choice((17, 18)), _c10_node_pv(rng), "", "", 0, 0, False, False))
+                    h.preload.append(("child", nid, 0, 0, 6, ""))
+                if state.endswith("asked"):
+                    h.ops.append(("recv", rng.choice((f"{nid};3;1;0;0;5", f"{nid};3;2;0;0;")), rng.choice(((), (), (), (True,))),
+                                  gw.DEFAULT_TIME))
+                pres = f"{nid};255;0;{rng.choice((0, 0, 1))};{t};{pay}"
+                h.ops.append(("recv", pres, (), gw.DEFAULT_TIME))
+                h.ops.append(("recv", f"{other};1;1;0;0;5", (), gw.DEFAULT_TIME))
+                h.ops.append(("recv", pres, (), gw.DEFAULT_TIME))
+                h.ops.append(("recv", f"{nid};3;1;0;0;5", rng.choice(((), (), (), (True,))), gw.DEFAULT_TIME))
+                h.ops.append(("recv", f"{nid};3;1;0;0;5", (), gw.DEFAULT_TIME))
+                h.ops.append(("recv", f"{nid};{rng.choice((1, 4, 254))};0;0;{rng.choice((17, 18, t))};d", (), gw.DEFAULT_TIME))
+                h.ops.append(("recv", f"{nid};3;1;0;2;1", (), gw.DEFAULT_TIME))
+                h.ops.append(("recv", f"{nid};255;0;0;{rng.choice((t, t, 17))};{pay}", (), gw.DEFAULT_TIME))
+                h.ops.append(("recv", f"{nid};3;2;0;0;", (), gw.DEFAULT_TIME))
+                out.append(h)
+    return out
+
+
 def _c10_random_history(rng, v: str, kinds) -> Hist:
     """One random history.  The generator keeps an EXPECTATION of the registry (steering only, the oracle reads the real
     one): preloaded nodes, nodes that presented themselves, ids handed out by id requests - senders are drawn from
@@ -1748,8 +1812,16 @@ def _c10_random_history(rng, v: str, kinds) -> Hist:
                 if nxt not in handed and len(handed) < 3:
                     handed.append(nxt)
         elif r < 0.17:
-            line = f"{nid};255;0;0;{rng.choice((17, 17, 18))};{_c10_node_pv(rng, line_safe=True)}"
+            # a presentation on the system child: whatever its type (node / repeater, a sensor type, a type beyond the
+            # version's table - decoding does not look at the table), the node has presented itself
+            t = rng.choice((17, 17, 18)) if rng.random() < 0.5 else rng.choice(_c10_presentation_types(v))
+            line = f"{nid};255;0;{rng.choice((0, 0, 1))};{t};{_c10_node_pv(rng, line_safe=True)}"
             reg.add(nid)
+        elif r < 0.22:
+            # a presentation on another child, of any type (also the node types 17 / 18): a CHILD presentation - missing
+            # from an unknown node, no re-arming from a known one
+            t = rng.choice((17, 18)) if rng.random() < 0.4 else rng.choice(_c10_presentation_types(v))
+            line = f"{nid};{rng.choice((0, 1, 2, 4, 254))};0;{rng.choice((0, 0, 1))};{t};d"
         elif r < 0.40 and nid in reg:
             # set / req of a child of a (probably) registered node: the missing-child path
             line = rng.choice(("{n};{c};1;{a};0;5", "{n};{c};2;{a};0;", "{n};{c};1;0;2;1")).format(
@@ -1831,7 +1903,10 @@ def run_c10(ctx) -> Corr:
                 "node presentations with any version payload, id requests (placeholder entries) and write faults on the request "
                 "x 5 versions, over registries whose entries hold any stored node version (1.x, 2.x, patch levels, unknown "
                 "lines, no version at all); a grid protocol x stored node version x origin of the entry (preloaded, "
-                "presented, id request) of missing-child episodes; compared on the writes view with the Lean "
+                "presented, id request) of missing-child episodes; presentations of every type of the version's table and "
+                "beyond it, on the system child (= the node presents itself, whatever the type) and on other children (child "
+                "presentations, also of the node types 17 / 18), from unknown and known nodes with and without a request "
+                "outstanding - in the random histories and in a grid protocol x sender state x type; compared on the writes view with the Lean "
                 "model; oracle = one outstanding-request flag per node maintained from the trace, requests read from the "
                 "transport's write log. Plus registries restored from a persistence file (both file formats) by a real "
                 "`async with gateway`. non-trivial = distinct "
@@ -1847,6 +1922,7 @@ def run_c10(ctx) -> Corr:
     for i in range(n):
         hists.append(_c10_random_history(rng, lib.VERSIONS[i % 5], kinds))
     hists += _c10_version_grid(ctx, lib.rng_for(ctx.seed, "c10grid"))
+    hists += _c10_presentation_grid(ctx, lib.rng_for(ctx.seed, "c10presentations"))
     impl = run_both(hists, corr, ctx, "writes", "writes view")
     for h, io in zip(hists, impl):
         outstanding: set = set()
@@ -1869,8 +1945,18 @@ def run_c10(ctx) -> Corr:
                     break
                 continue
             _, missing = expected_writes(before, f, h, op[3], o["out"])
-            if f[2] == 0 and f[1] == 255:
+            if f[2] == 0:
+                table = proto_tables(before["proto"])["presentation"]
+                corr.count(f"presentation on {'the system child' if f[1] == 255 else 'another child'}, type "
+                           f"{'17 / 18' if f[4] in (17, 18) else 'of the table, not 17 / 18' if str(f[4]) in table else 'beyond the table'}, "
+                           f"sender {'known' if f[0] in before['nodes'] else 'unknown'}, request "
+                           f"{'outstanding' if f[0] in outstanding else 'not outstanding'}")
+            # the episode of a node ends when it has presented itself: a presentation on the system child, of whatever type,
+            # after which the registry holds a fresh entry for the node (what the library does with every such line)
+            if _c10_presents_node(f, o["nodes"]):
                 outstanding.discard(f[0])
+            elif f[2] == 0 and f[1] == 255:
+                corr.count("presentation on the system child that did not register the node afresh (episode not ended)")
             if missing:
                 entry = before["nodes"].get(f[0])
                 corr.count("missing: unknown node" if entry is None else
@@ -1935,7 +2021,7 @@ async def _c10_restored_run(sc: dict, path: str):
                 out = gw.render_msg(await anext(g.listen()))
             except BaseException as e:  # noqa: BLE001
                 out = gw.render_exc(e)
-            steps.append((line, out, before, proto, list(tr.attempts)))
+            steps.append((line, out, before, proto, list(tr.attempts), gw.snapshot_nodes(g)))
     return steps
 
 
@@ -1943,7 +2029,7 @@ def _c10_restored_judge(steps):
     """The property over one run: (index of the first offending step, what) or None.  What is missing is decided from the
     real registry before the step; the requests are the lines in the transport's write log."""
     outstanding: set = set()
-    for i, (line, out, before, proto, attempts) in enumerate(steps):
+    for i, (line, out, before, proto, attempts, after) in enumerate(steps):
         f = fields_of(line)
         if f is None:
             continue
@@ -1952,7 +2038,7 @@ def _c10_restored_judge(steps):
             if reqs:
                 return i, "a presentation request was written under a protocol before 2.0"
             continue
-        if f[2] == 0 and f[1] == 255:
+        if _c10_presents_node(f, after):
             outstanding.discard(f[0])
         missing = (f[2] in (1, 2) and (f[0] not in before or f[1] not in before[f[0]]["children"])) or (
             f[2] == 0 and f[1] != 255 and f[0] not in before)
@@ -1979,7 +2065,8 @@ def _c10_restored_scenarios(ctx):
                 for _ in range(rng.randint(5, 12)):
                     nid = rng.choice(ids + [9])
                     lines.append(rng.choice(("{n};{c};1;0;0;5", "{n};{c};2;0;0;", "{n};{c};1;1;2;1", "{n};{c};1;0;0;5", "{n};255;0;0;17;{pv}",
-                                             "{n};{c};0;0;6;d")).format(n=nid, c=rng.choice((0, 1, 2, 3)), pv=_c10_node_pv(rng, True)))
+                                             "{n};{c};0;0;6;d", "{n};255;0;0;{t};{pv}", "{n};{c};0;0;{t};d")).format(
+                        n=nid, c=rng.choice((0, 1, 2, 3)), pv=_c10_node_pv(rng, True), t=rng.choice(_c10_presentation_types(v))))
                 out.append({"version": v, "format": fmt, "nodes": nodes, "lines": lines})
     return out
 
@@ -2008,7 +2095,7 @@ def replay_c10_restored(case) -> None:
     sc = case["restored_registry"]
     print(f"persistence file ({sc['format']} format) holding [id, stored version, children]: {sc['nodes']}")
     steps = asyncio.run(_c10_restored_run(sc, os.path.join(lib.scratch(), "c10-restored-replay.json")))
-    for i, (line, out, before, proto, attempts) in enumerate(steps):
+    for i, (line, out, before, proto, attempts, _after) in enumerate(steps):
         print(f"step {i}: recv {line!r} (protocol {proto})\n   impl : {out} {attempts}")
     bad = _c10_restored_judge(steps)
     print("NOT reproduced" if bad is None else f"reproduced at step {bad[0]}: {bad[1]}")
